@@ -559,6 +559,26 @@ Definition run_packer_lettered (c : case) : bytes :=
   let (_, outs) := run_trace (Z * Z) snd cfg (start_state frozen) ops in
   str_ok_colon ++ items_of cfg frozen payload_lettered outs.
 
+(* ---- kind 9: Datadog, records produced by the output's REAL serializer from field values carried by the case
+   (sargs = tag :: one message per written record); no byte limit (zarg 2 must be 0), so the chunking depends
+   on the record limit and the flushes only; zargs as in kind 0 (op 0 = FlushBuffer, 1 = WriteStream(next record)).
+   The payload field is the number of records in the chunk's JSON array. ---- *)
+Fixpoint ops_counted (i : nat) (zs : list Z) : list (op Z) :=
+  match zs with
+  | [] => []
+  | z :: zs' =>
+      if z =? 0 then OFlush :: ops_counted (S i) zs'
+      else OWrite (model_now i) 1 :: ops_counted (S i) zs'
+  end.
+
+Definition run_packer_counted (c : case) : bytes :=
+  if negb ((zarg c 0 =? 3) && (zarg c 2 =? 0)) then bad_case_output else
+  let cfg := target_config 3 (zarg c 1) 0 (sarg c 0) in
+  let frozen := zarg c 3 in
+  let ops := ops_counted 0 (skipn 4 (c_zargs c)) ++ [OFlush] in
+  let (_, outs) := run_trace Z (fun n => n) cfg (start_state frozen) ops in
+  str_ok_colon ++ items_of cfg frozen (fun body => dec_of_Z (Z.of_nat (length (piece_recs body)))) outs.
+
 Definition run_case_C11 (c : case) : bytes :=
   match c_kind c with
   | 0%N => run_packer_literal c
@@ -570,5 +590,6 @@ Definition run_case_C11 (c : case) : bytes :=
   | 6%N => run_packer_clocked c
   | 7%N => run_two_makers c
   | 8%N => run_packer_lettered c
+  | 9%N => run_packer_counted c
   | _ => bad_case_output
   end.
